@@ -6,7 +6,7 @@
 From Coq Require Import List Arith Bool Lia ZArith Strings.Byte.
 From IGP Require Import Base.Str Base.Outcome Model.Tree.
 Import ListNotations.
-Open Scope Z_scope.
+Local Open Scope Z_scope.
 
 Record dov_wiring := mkDovW {
   cx_calls : list field;      (* fields on which CalculateStateComplexity is called, in source order *)
